@@ -197,6 +197,14 @@ class C18(Check):
             self.run_program(ctx, {"nthreads": 3, "threads": [[["open", 0, 0]], [["find_all", 0, 0]], [["digest", 0, 0], ["create_t", 0, 0]]], "schedule": [2, 1, 1, 2, 2],
                                    "mode": "controlled", "tokens": [0, 0, 0], "start_logged_in": False})
             return ctx.kf.hits.get("KF-C18-02", 0) > before
+        if entry["id"] == "KF-C18-05":
+            before = ctx.kf.hits.get("KF-C18-05", 0)
+            for _ in range(40):
+                self.run_program(ctx, {"nthreads": 8, "threads": [[["priv_read", 0, 0], ["create_t", 0, 0]] * 4 for _ in range(8)], "schedule": [], "mode": "free",
+                                       "tokens": [0] * 8, "start_logged_in": True})
+                if ctx.kf.hits.get("KF-C18-05", 0) > before:
+                    return True
+            return False
         if entry["id"] == "KF-C18-03":
             before = ctx.kf.hits.get("KF-C18-03", 0)
             for _ in range(60):
@@ -263,6 +271,16 @@ class C18(Check):
             for m, r in zip(metas[t], R[t]):
                 if m["op"] in ("find_all", "find_own", "priv_find"):
                     searches[prog["tokens"][t]].append((r["t0"], r["t1"], t))
+
+        creations = {0: [], 1: []}
+        for t in range(n):
+            for m, r in zip(metas[t], R[t]):
+                if m["op"] in ("prologue_key", "create", "create_priv", "genkey"):
+                    creations[prog["tokens"][t]].append((r["t0"], r["t1"], t))
+        KF5 = {"op": "search", "rv": "CKR_GENERAL_ERROR", "overlaps": "object_creation_by_other_thread"}
+
+        def creation_overlaps(tok, t, r):
+            return any(who != t and a <= r["t1"] and b >= r["t0"] for a, b, who in creations[tok])
 
         def raced(tok, t, r):
             """did a search of ANOTHER thread on the token overlap this call?"""
@@ -356,6 +374,8 @@ class C18(Check):
                     got = r.get("h", [])
                     if rv == K.CKR_GENERAL_ERROR and logout_overlaps(tok, r) and ctx.known({"op": "search", "rv": "CKR_GENERAL_ERROR", "overlaps": "C_Logout"}):
                         continue
+                    if rv == K.CKR_GENERAL_ERROR and creation_overlaps(tok, t, r) and ctx.known(KF5):
+                        continue
                     if rv != 0:
                         raise bad("%s: search failed: %s" % (where, K.rvname(rv)))
                     want = 1 if m["k"] in live else 0
@@ -414,6 +434,8 @@ class C18(Check):
                 elif op == "priv_read":
                     # judged only when the user was logged in during the whole of both calls and the object exists
                     S = possible_login(tok, {"t0": prev_find["t0"], "t1": r["t1"]})
+                    if prev_find["rv"] == K.CKR_GENERAL_ERROR and creation_overlaps(tok, t, prev_find) and ctx.known(KF5):
+                        continue
                     if prog.get("start_logged_in") and S == {"in"}:
                         v = r["attrs"][str(K.CKA_VALUE)]
                         if prev_find["rv"] != 0 or len(prev_find.get("h", [])) != 1 or v[0] != 0 or v[1] != SHARED_PRIVATE.hex():
@@ -465,6 +487,8 @@ class C18(Check):
                     continue
                 where = "thread %d call %d (complete search)" % (t, i)
                 if r["rv"] == K.CKR_GENERAL_ERROR and logout_overlaps(tok, r) and ctx.known({"op": "search", "rv": "CKR_GENERAL_ERROR", "overlaps": "C_Logout"}):
+                    continue
+                if r["rv"] == K.CKR_GENERAL_ERROR and creation_overlaps(tok, t, r) and ctx.known(KF5):
                     continue
                 if r["rv"] != 0:
                     raise bad("%s failed: %s" % (where, K.rvname(r["rv"])))
